@@ -183,7 +183,10 @@ impl<'input> Lexer<'input> {
     {
         self.scanner.next_char();
 
-        let mut chars = vec![];
+        // We accumulate the literal in a `String`, rather than in a list of
+        // `char`s, so that the offsets recorded for interpolation slots are
+        // byte offsets into the resulting literal.
+        let mut chars = String::new();
         let mut state = StrScanState::None;
         let mut first_hex_char = None;
 
@@ -285,7 +288,7 @@ impl<'input> Lexer<'input> {
             }
         }
 
-        let s = chars.into_iter().collect();
+        let s = chars;
 
         if interpolate {
             Ok(Token::InterpStrLiteral(s, interpolation_slots))
